@@ -590,3 +590,22 @@ func underNil(t types.Type) types.Type {
 	}
 	return types.Unalias(t).Underlying()
 }
+
+// opaqueField: field fi of a struct type that the registry keeps opaque (a collection of the SDK): the heap
+// it lives in, the sort and the type of its value.
+func (r *TypeReg) opaqueField(t types.Type, fi int) (key, vsort string, ftyp types.Type, ok bool) {
+	st, isStruct := unaliasNil(t).Underlying().(*types.Struct)
+	if !isStruct || fi < 0 || fi >= st.NumFields() {
+		return "", "", nil, false
+	}
+	f := st.Field(fi)
+	name := "opaque"
+	if n, isNamed := unaliasNil(t).(*types.Named); isNamed {
+		name = n.Obj().Name()
+	}
+	vsort = r.sortOf(f.Type())
+	if vsort == "" {
+		return "", "", nil, false
+	}
+	return "O!" + sanitize(name) + "!" + f.Name() + "!" + sanitize(vsort), vsort, f.Type(), true
+}
